@@ -146,6 +146,8 @@ class DictInterp:
     def const_of(self, e: ast.AST, env: dict):
         if isinstance(e, ast.Constant) and isinstance(e.value, str):
             return e.value
+        if isinstance(e, ast.Call) and isinstance(e.func, ast.Name) and e.func.id == "str" and len(e.args) == 1 and not e.keywords:
+            return self.const_of(e.args[0], env)  # str(<StrEnum member>) is the member's value
         if isinstance(e, ast.Attribute) and (dotted(e) or "").count(".") == 1 and (dotted(e) or "")[0].isupper():
             return e.attr  # Enum member
         if isinstance(e, ast.Name):
@@ -161,6 +163,8 @@ class DictInterp:
 
     def excluded(self, e: ast.AST, env: dict) -> set:
         """constants the expression is known not to equal (learned from raising guards)"""
+        if isinstance(e, ast.Call) and isinstance(e.func, ast.Name) and e.func.id == "str" and len(e.args) == 1 and not e.keywords:
+            return self.excluded(e.args[0], env)
         if isinstance(e, ast.Name):
             return env.get("notconst:" + e.id, set())
         if isinstance(e, ast.Subscript) and isinstance(e.value, ast.Name) and isinstance(e.slice, ast.Constant):
@@ -260,6 +264,21 @@ class DictInterp:
                         return alive
                     if d is not None:
                         env[tgt.id] = d
+                        # values of a literal / keyword-constructed dict: what is known about them stays known per key
+                        for k in [k for k in env if k.startswith((f"const:{tgt.id}[", f"notconst:{tgt.id}["))]:
+                            del env[k]
+                        items = []
+                        if isinstance(val, ast.Call) and (dotted(val.func) or "") == "dict":
+                            items = [(k.arg, k.value) for k in val.keywords if k.arg]
+                        elif isinstance(val, ast.Dict):
+                            items = [(k.value, v) for k, v in zip(val.keys, val.values) if isinstance(k, ast.Constant)]
+                        for kname, v in items:
+                            c = self.const_of(v, env)
+                            if c is not None:
+                                env[f"const:{tgt.id}[{kname}]"] = c
+                            ex = self.excluded(v, env)
+                            if ex:
+                                env[f"notconst:{tgt.id}[{kname}]"] = set(ex)
                     elif isinstance(val, (ast.Tuple, ast.List)) and all(isinstance(x, ast.Constant) for x in val.elts):
                         env["tuple:" + tgt.id] = [x.value for x in val.elts]
                         env[tgt.id] = "some"
@@ -267,6 +286,7 @@ class DictInterp:
                         env[tgt.id] = tuple(self.truth(x, env) for x in val.elts)
                     elif isinstance(val, (ast.Compare, ast.BoolOp)) or (isinstance(val, ast.UnaryOp) and isinstance(val.op, ast.Not)):
                         env[tgt.id] = self.truth(val, env)
+                        env["def:" + tgt.id] = val
                     else:
                         env[tgt.id] = self.kind_of(val, env)
                         c = self.const_of(val, env)
@@ -322,6 +342,16 @@ class DictInterp:
 
     def _refine(self, env: dict, test: ast.AST, pol: bool) -> dict:
         """learn from `X is NotSet`, `d["k"] == C` (exclusion) on the taken branch"""
+        if isinstance(test, ast.Name) and isinstance(env.get("def:" + test.id), ast.AST):
+            env[test.id] = pol
+            return self._refine(env, env["def:" + test.id], pol)
+        if isinstance(test, ast.UnaryOp) and isinstance(test.op, ast.Not):
+            return self._refine(env, test.operand, not pol)
+        if isinstance(test, ast.BoolOp):
+            if isinstance(test.op, ast.And) == pol:  # (a and b) true / (a or b) false: every member is decided
+                for v in test.values:
+                    env = self._refine(env, v, pol)
+            return env
         if isinstance(test, ast.Compare) and len(test.ops) == 1:
             op, l, r = test.ops[0], test.left, test.comparators[0]
             if isinstance(l, ast.Name) and isinstance(op, (ast.Is, ast.IsNot)):
